@@ -1,6 +1,8 @@
 #!/bin/sh
-# applies a seeded change to /repo, runs the quick check(s), undoes it.  usage: tools/try_seed.sh <seeded dir name> <prop> [<prop>...]
+# applies a seeded change to /repo, runs the quick check(s), undoes it, then re-runs them on the clean tree so that the
+# evidence files left behind come from clean runs.  usage: tools/try_seed.sh <seeded dir name> <prop> [<prop>...]
 d=/verif/seeded/$1; shift
 git -C /repo apply "$d/patch.diff" || exit 2
 for p in "$@"; do ./sv check $p 2>&1 | grep -v "^KNOWN-FINDING" | tail -n 4 | cut -c1-230; done
 git -C /repo checkout -- . ; git -C /repo status --short | head -3
+for p in "$@"; do ./sv check $p 2>&1 | grep -v "^KNOWN-FINDING" | tail -n 1 | sed 's/^/  clean tree: /' | cut -c1-120; done
